@@ -84,12 +84,14 @@ def check(env, rep, tier):
             I, res = run(prog, neg, args=args, st=st, I=I, gargs=gargs)
             report_obligations(rep, "C10.1", I)
             bound = budget.aff - (msg.aff + R - total.aff)
-            oks = bool(ev["sub"])
-            for a, s in ev["sub"]:
-                if not (isinstance(a[0], IntV) and isinstance(a[1], IntV) and a[0].aff == budget.aff and a[1].aff == msg.aff + R - total.aff):
-                    oks = False
+            # the bound must reach the size decision: as an operand of min (client) or as the size itself (no client)
+            oks = False
+            for a, s, minargs in ev["new"]:
+                cands = list(minargs or ()) + [a[2]]
+                if any(isinstance(m, IntV) and m.aff == bound for m in cands):
+                    oks = True
             rep.ob("C10.1", "bound|%s" % mode, oks,
-                   "the block size bound is not budget - ((message size + %d) - payload size) computed with checked_sub" % R, site,
+                   "the block size bound used for the size decision is not budget - ((message size + %d) - payload size)" % R, site,
                    sample={"rule": "C10.1", "mode": mode, "checked_sub_calls": len(ev["sub"])})
             # underflow -> Err
             und = True
